@@ -174,3 +174,171 @@ def run(res, facts):
     if reported > 4:
         r.note('%d further points of the domain violate the clause' % (reported - 4))
     return r
+
+
+# ----------------------------------------------------------------------------------------------- R4: namespace nodes of literal result elements
+class NsObj:
+    def __init__(self, prefix, uri):
+        self.prefix, self.uri = prefix, uri
+
+    def __repr__(self):
+        return '%s=%s' % (self.prefix or '#default', self.uri)
+
+
+class NsMachine(StrMachine):
+    """StrMachine plus vector iteration over Namespace objects (NamespacesHandler::postConstruction and the members it calls)"""
+
+    def __init__(self, facts, env, cfg, rec, obj):
+        super().__init__(facts, env, cfg, rec)
+        self.obj = obj          # member vectors by name
+        self.fuel = 4000
+
+    def ev(self, e):
+        from .c10_lists import It
+        k = e['k']
+        if k == 'Member' and (strip_casts(e.get('obj')) is None or strip_casts(e['obj']).get('k') == 'This') and e['m'] in self.obj:
+            return self.obj[e['m']]
+        if k == 'Un' and e['op'] == '*':
+            v = self.ev(e['e'])
+            if isinstance(v, It):
+                return v.vec.items[v.i]
+            return v
+        if k == 'Un' and e['op'] in ('++', '--'):
+            t = strip_casts(e['e'])
+            old = self.ev(t)
+            if isinstance(old, It):
+                new = It(old.vec, old.i + (1 if e['op'] == '++' else -1))
+                self.env[t['id']] = new
+                return old if e.get('post') else new
+        return super().ev(e)
+
+    def hook(self, m, c):
+        from .c10_lists import It, Vec
+        k = c['k']
+        n = c.get('n') or callee(c).split('::')[-1]
+        cfg = self.cfg
+        if k == 'OpCall':
+            op = c['op']; a = c['args']
+            if op == '*' and len(a) == 1:
+                v = self.ev(a[0])
+                return v.vec.items[v.i] if isinstance(v, It) else v
+            if op in ('++', '--'):
+                t = strip_casts(a[0]); old = self.ev(t)
+                if isinstance(old, It):
+                    new = It(old.vec, old.i + (1 if op == '++' else -1))
+                    self.env[t['id']] = new
+                    return old if len(a) == 2 else new
+            if op in ('==', '!=') and len(a) == 2:
+                l, r = self.ev(a[0]), self.ev(a[1])
+                if isinstance(l, It) or isinstance(r, It):
+                    return int((l == r) == (op == '=='))
+            if op == '=' and len(a) == 2:
+                v = self.ev(a[1])
+                t = strip_casts(a[0])
+                if isinstance(t, dict) and t.get('k') == 'Ref':
+                    self.env[t['id']] = v
+                    return v
+        if k == 'Ctor':
+            if len(c.get('args', [])) == 1:
+                return self.ev(c['args'][0])
+            if len(c.get('args', [])) == 2 and 'GetCachedString' not in (c.get('cls') or ''):
+                return ('pair', self.ev(c['args'][0]), self.ev(c['args'][1]))
+        if k == 'MCall':
+            ob = strip_casts(c.get('obj'))
+            o = None
+            try:
+                o = self.ev(ob) if ob is not None and ob.get('k') != 'This' else None
+            except Unsupported:
+                o = None
+            if isinstance(o, It) and n in ('getPrefix', 'getURI', 'setURI'):
+                o = o.vec.items[o.i]
+            if isinstance(o, NsObj):
+                if n == 'getPrefix':
+                    return o.prefix
+                if n == 'getURI':
+                    return o.uri
+                if n == 'setURI':
+                    o.uri = self.ev(c['args'][0]); return 0
+            if isinstance(o, Vec):
+                if n in ('begin', 'end'):
+                    return It(o, 0 if n == 'begin' else len(o.items))
+                if n == 'empty':
+                    return int(not o.items)
+                if n == 'size':
+                    return len(o.items)
+                if n == 'erase':
+                    it = self.ev(c['args'][0])
+                    del o.items[it.i]
+                    return It(o, it.i)
+                if n == 'push_back':
+                    o.items.append(self.ev(c['args'][0])); return 0
+            if n == 'getPooledString':
+                return self.ev(c['args'][0])
+            if n == 'isActive':
+                return 0
+            if ob is None or ob.get('k') == 'This':
+                if n == 'isExcludedNamespaceURI':
+                    return int(self.ev(c['args'][0]) in cfg['excluded'])
+                if n == 'isExtensionNamespaceURI':
+                    return 0
+                if n == 'getNamespaceAlias':
+                    return cfg['aliases'].get(self.ev(c['args'][0]), 0)
+                if n in ('copyNamespaceAliases', 'copyExtensionNamespaceURIs', 'copyExcludeResultPrefixes', 'createResultAttributeNames'):
+                    return 0
+                if n in ('processExcludeResultPrefixes', 'processNamespaceAliases'):
+                    a = self.facts.ast(c.get('usr')) if c.get('usr') else None
+                    if a is None:
+                        raise Unsupported('NamespacesHandler::%s: callee not resolved' % n)
+                    sub = NsMachine(self.facts, {p['id']: self.ev(x) for p, x in zip(a['params'], c['args'])}, cfg, self.rec, self.obj)
+                    self.rec.append(('call', n))
+                    sub.call(a['body'])
+                    return 0
+        return super().hook(m, c)
+
+
+def r4_literal_namespaces(res, facts):
+    import itertools
+    from .c10_lists import Vec
+    r = res.rule('C01-R4', 'namespace nodes a literal result element copies (NamespacesHandler::postConstruction with processExcludeResultPrefixes and processNamespaceAliases, interpreted '
+                 'over declarations x excluded URIs x aliases x owner prefix): a node is dropped exactly when its stylesheet URI is excluded and it is not the owner\'s prefix, and the '
+                 'survivors carry the alias of their stylesheet URI (XSLT 1.0 §7.1.1: exclusion by the literal URI, then aliasing)', floor=200)
+    cands = [a for a in facts.asts('NamespacesHandler::postConstruction') if len(a['params']) == 5]
+    if len(cands) != 1:
+        raise AnalysisBroken('NamespacesHandler::postConstruction(5 parameters): %d bodies' % len(cands))
+    a = cands[0]
+    DECLS = [('', 'urn:d'), ('lit', 'urn:lit'), ('o', 'urn:o'), ('k', 'urn:res')]
+    EXCL = ['urn:lit', 'urn:res']
+    ALIAS = [('urn:lit', 'urn:res'), ('urn:o', 'urn:lit')]
+    reported = 0
+    for nd in range(1, len(DECLS) + 1):
+        for decls in itertools.combinations(DECLS, nd):
+            for ne in range(1, len(EXCL) + 1):
+                for excl in itertools.combinations(EXCL, ne):
+                    for na in range(0, len(ALIAS) + 1):
+                        for al in itertools.combinations(ALIAS, na):
+                            for owner in ('e', 'lit:e'):
+                                cfg = {'excluded': set(excl), 'aliases': dict(al), 'name': owner, 'ns': ''}
+                                vec = Vec([NsObj(p, u) for p, u in decls])
+                                obj = {'m_namespaceDeclarations': vec, 'm_excludedResultPrefixes': Vec([('pair', 'x', u) for u in excl])}
+                                rec = []
+                                pid = [p['id'] for p in a['params']]
+                                m = NsMachine(facts, {pid[0]: 'CTX', pid[1]: 1, pid[2]: owner, pid[3]: 0, pid[4]: 0}, cfg, rec, obj)
+                                try:
+                                    m.call(a['body'])
+                                except Unsupported as u:
+                                    raise AnalysisBroken('NamespacesHandler::postConstruction outside the interpreted subset: %s' % u)
+                                own_prefix = owner.split(':')[0] if ':' in owner else ''
+                                want = [(p, dict(al).get(u, u)) for p, u in decls if not (u in excl and p != own_prefix)]
+                                got = [(x.prefix, x.uri) for x in vec.items]
+                                site = 'literal result element <%s> declares %s | exclude %s | alias %s' % (owner, ['%s=%s' % (p or '#default', u) for p, u in decls], list(excl), ['%s->%s' % x for x in al])
+                                if got == want:
+                                    r.ok(site)
+                                else:
+                                    reported += 1
+                                    if reported <= 3:
+                                        order = [x[1] for x in rec if x[0] == 'call']
+                                        r.violation(site, 'copies %s, required %s (order of processing: %s)' % (['%s=%s' % (p or '#default', u) for p, u in got], ['%s=%s' % (p or '#default', u) for p, u in want], ' then '.join(order)),
+                                                    common.file_line(a))
+                                    else:
+                                        r.instances += 1
+    return r
